@@ -103,7 +103,7 @@ def main():
         mp = os.path.join(dst, "meta.json")
         if os.path.exists(mp):
             prev = json.load(open(mp))
-        for k in ("breaks", "needs_to_manifest"):
+        for k in ("breaks", "needs_to_manifest", "history", "ran"):
             if k in prev:
                 meta[k] = prev[k]
         json.dump(meta, open(mp, "w"), indent=1)
